@@ -552,6 +552,12 @@ theorem C15_restart_finds_selection (k : K) (tu : Nat) (dirs : List Nat)
     · exact Or.inr hw
   exact restart_indexes _ dirs hfiles hd
 
+theorem configureBySize_eq {k k1 : K} {tu : Nat} {sel new : List WS} (hmin : ¬ tu < minUsableSize)
+    (hreq : k.sizeRequest (fun _ => true) k.dir0 (toInt64 tu) = (k1, .ok (sel, new))) :
+    k.configureBySize tu = k1.apply (sel ++ new) new := by
+  unfold K.configureBySize
+  rw [if_neg hmin, hreq]
+
 /-- **The same request finds the same selection again and creates nothing** — on the keeper as the first request
 left it, and hence (with `restart_indexes`: a restarted keeper indexes every space file of its directories) after a
 restart: the fill pass over the index extended by the spaces the first request created takes exactly what the first
@@ -617,9 +623,8 @@ theorem C15_reconfigure_stable (k : K) (tu : Nat) (h : (k.configureBySize tu).2.
       have := (hmem z).2 (by rw [hsn]; simp)
       rw [hnil] at this; cases this
   have hres : (k.configureBySize tu).1.configureBySize tu =
-      ((k.configureBySize tu).1.apply ((fill (candidates (k.index ++ new)) 0 (toInt64 tu)).1 ++ []) []) := by
-    conv => lhs; unfold K.configureBySize
-    rw [if_neg hmin, hreq2]
+      ((k.configureBySize tu).1.apply ((fill (candidates (k.index ++ new)) 0 (toInt64 tu)).1 ++ []) []) :=
+    configureBySize_eq hmin hreq2
   rw [hres]
   unfold K.apply
   rw [if_neg hne2]
